@@ -1259,12 +1259,15 @@ class System:
             if len(rails) > 0:
                 for ph in phase_list:
                     for r in rails:
-                        rail += [r]
-                        phases += [ph]
                         if ph != "":
                             filt = (df["Rail in"] == r) & (df["Phase"] == ph)
                         else:
                             filt = df["Rail in"] == r
+                        if not filt.any():
+                            # rail feeds no component in this phase (PMux on another input)
+                            continue
+                        rail += [r]
+                        phases += [ph]
                         vin += [df[filt]["Vin (V)"].tolist()[0]]
                         iin += [sum(df[filt]["Iin (A)"])]
                         p = sum(df[filt]["Power (W)"])
